@@ -80,6 +80,46 @@ func TestTriviaVariants(t *testing.T) {
 	})
 }
 
+// TestLargeVariants: programs of several thousand tokens (more than one
+// 1024-entry pool block of tokens per parse) under different trivia, so that
+// which token lands on which pool slot shifts between the renderings.
+func TestLargeVariants(t *testing.T) {
+	harness.Check(t, "large-variants", 80, 4000, func(rt *rapid.T) {
+		v := rapid.SampledFrom([]px.Ver{px.V56, px.V74}).Draw(rt, "version")
+		o := progs.Options(v)
+		c := progs.Draw(rt, v, o, 60, 160)
+		ref := c.G.Render(c.Root, progs.Policy(rt, phpgen.PolicySpace, nil))
+		rr, bad := parseOK(ref.Src, v)
+		harness.Eval()
+		if bad != "" {
+			harness.Fail(rt, "reference-rejected", ref.Src, meta(v), "[%s] reference rendering (single spaces) of a large program does not parse cleanly: %s", v, bad)
+		}
+		if d := astx.Equal(rr.Root, c.Root, astx.Structure); d != "" {
+			harness.Fail(rt, "reference-vs-model", ref.Src, meta(v), "[%s] reference rendering of a large program parses to a different structure than the generator's model: %s", v, d)
+		}
+		for i := 0; i < 2; i++ {
+			kind := rapid.SampledFrom([]phpgen.PolicyKind{phpgen.PolicyMinimal, phpgen.PolicyWhitespace, phpgen.PolicyFull}).Draw(rt, "policy")
+			excl := 0
+			lay := c.G.Render(c.Root, progs.Policy(rt, kind, &excl))
+			for j := 0; j < excl; j++ {
+				harness.Excluded("lone-cr-newline")
+			}
+			r, bad := parseOK(lay.Src, v)
+			harness.Eval()
+			if bad != "" {
+				harness.Fail(rt, "variant-rejected", lay.Src, meta(v), "[%s] a large program parses cleanly with single spaces but not with this trivia: %s", v, bad)
+			}
+			if d := astx.Equal(r.Root, c.Root, astx.Structure); d != "" {
+				harness.Fail(rt, "structure-changed", lay.Src, meta(v), "[%s] trivia changed the tree of a large program (variant vs model): %s", v, d)
+			}
+			if lay.Tokens > 1024 {
+				harness.Class("tokens>1024")
+				harness.NonTrivial(lay.Src, fmt.Sprintf("[%s tokens=%d classes=%d] %q", v, lay.Tokens, len(lay.Classes), trunc(lay.Src, 200)))
+			}
+		}
+	})
+}
+
 func trunc(b []byte, n int) []byte {
 	if len(b) > n {
 		return b[:n]
